@@ -786,6 +786,45 @@ Example keyed_reader_follows_key_refuted :
   r_val (fst (walk (root_reached sh s) [Fld 0; Key 7%Z] 0)) = Some (it 9%Z 90%Z).
 Proof. vm_compute. reflexivity. Qed.
 
+(** ---- Patch of a keyed collection (open finding F-C16-n) ----
+    PatchField for Vec names a changed item by its INDEX (path p ++ [idx]); a reader of a keyed
+    item subscribes by the path segment of its KEY (p ++ [seg]).  The two agree as long as the
+    FieldKeys of the collection are aligned (every key's segment is its index), which is the
+    case until the collection is reordered / items are inserted before others. *)
+Definition keys_aligned (f : fkeys) : Prop :=
+  forall k seg idx, fk_get k f = Some (seg, idx) -> seg = idx.
+
+(** except in the known class (KnownClass = the key map entry is not aligned), the path a keyed
+    step gives the item of key k is the path Patch notifies for the index of that item *)
+Theorem keyed_path_is_index_path_except_known r v k s0 f :
+  r_sh r = SKeyed s0 -> km_find (r_segs r) (r_keys r) = Some f -> keys_aligned f ->
+  forall seg idx, fk_get k f = Some (seg, idx) ->
+    r_segs (extend r v (Key k)) = r_segs r ++ [idx].
+Proof.
+  intros Hsh Hf Hal seg idx Hg. unfold extend. rewrite Hsh. unfold km_entry. rewrite Hf, Hg.
+  cbn [r_segs]. rewrite (Hal k seg idx Hg). reflexivity.
+Qed.
+
+(** a freshly created FieldKeys is aligned *)
+Lemma fk_new_aligned ks : NoDup ks -> keys_aligned (fk_new ks).
+Proof.
+  intros Hnd k seg idx Hg. unfold fk_get in Hg. rewrite (fk_new_keys _ Hnd) in Hg.
+  apply assoc_In in Hg. apply in_map_iff in Hg. destruct Hg as [[k' i] [Heq _]].
+  cbn [fst snd] in Heq. inversion Heq; subst. reflexivity.
+Qed.
+
+(** the known class is inhabited: the keyed collection [7; 8] is reordered into [8; 7] through
+    its own guard; patching it with a new `n` for the item of key 7 (now at index 1) re-runs the
+    reader of key 8 (reader 1, whose key has segment 1), not the reader of key 7 (reader 0) *)
+Example patch_keyed_item_refuted :
+  let sh := SStruct [SKeyed (SStruct [SInt; SInt])] in
+  let it k n := Lst [Num k; Num n] in
+  let v := Lst [Lst [it 7%Z 1%Z; it 8%Z 2%Z]] in
+  let readers := [mkReader 0 0 [Fld 0; Key 7%Z; Fld 1]; mkReader 0 0 [Fld 0; Key 8%Z; Fld 1]] in
+  let s := after sh readers [] [] v [HSet [Fld 0] (Lst [it 8%Z 2%Z; it 7%Z 1%Z])] in
+  st_queue (fst (do_patch sh s [Fld 0] (Lst [it 8%Z 2%Z; it 7%Z 5%Z]))) = [1].
+Proof. vm_compute. reflexivity. Qed.
+
 (** ---- order among readers of which one is an ancestor of the other (open finding F-C16-g) ---- *)
 
 Lemma proper_prefix_length r1 r2 : is_prefix r1 r2 = true -> r1 <> r2 -> length r1 < length r2.
